@@ -13,6 +13,7 @@ import ast
 
 from ..core import astutil as au
 from ..core.report import AnalysisError
+from ..core.template import find, has
 
 LEVEL = 'other'
 MODS = ['emg3d/meshes.py', 'emg3d/models.py', 'emg3d/fields.py',
@@ -181,11 +182,15 @@ def emitted_keys(C, name, td):
                     'self.__class__.__name__':
                 has_class = True
     loops = literal_loop_names(td)
+    oname = 'out'
+    par = au.parent(d)
+    if isinstance(par, ast.Assign) and isinstance(par.targets[0], ast.Name):
+        oname = par.targets[0].id
     for n in ast.walk(td):
         if isinstance(n, ast.Assign):
             for t in n.targets:
                 if isinstance(t, ast.Subscript) and ast.unparse(t.value) == \
-                        'out':
+                        oname:
                     if isinstance(t.slice, ast.Constant):
                         keys.add(t.slice.value)
                     elif isinstance(t.slice, ast.Name) and t.slice.id in loops:
@@ -200,7 +205,8 @@ def consumed_keys(fd):
     popped = set()
     for n in ast.walk(fd):
         if isinstance(n, ast.Call) and isinstance(n.func, ast.Attribute) and \
-                n.func.attr == 'pop' and ast.unparse(n.func.value) == 'inp' \
+                n.func.attr == 'pop' and ast.unparse(n.func.value) == \
+                (au.params(fd)[1] if len(au.params(fd)) > 1 else 'inp') \
                 and n.args:
             a = n.args[0]
             if isinstance(a, ast.Constant):
@@ -213,10 +219,26 @@ def consumed_keys(fd):
         raise AnalysisError('from_dict: constructor call not found')
     c = ctor[0]
     kw = {k.arg for k in c.keywords if k.arg}
-    star = [ast.unparse(k.value) for k in c.keywords if k.arg is None]
-    remainder = any(s == 'inp' or s.startswith('{k: v for k, v in inp.items()')
-                    for s in star)
-    via = [s for s in star if s not in ('inp',) and not s.startswith('{')]
+    p0 = au.params(fd)[1] if len(au.params(fd)) > 1 else 'inp'
+
+    def is_filter(node):
+        """{k: v for k, v in <input>.items() [if k != '__class__']}"""
+        return isinstance(node, ast.DictComp) and isinstance(
+            node.generators[0].iter, ast.Call) and ast.unparse(
+                node.generators[0].iter.func) == f'{p0}.items'
+    remainder = False
+    via = []
+    for k in c.keywords:
+        if k.arg is not None:
+            continue
+        v = k.value
+        if is_filter(v):
+            remainder = True
+        elif isinstance(v, ast.Name):
+            if v.id == p0:
+                remainder = True
+            else:
+                via.append(v.id)
     passed = set()
     for v in via:
         for n in ast.walk(fd):
@@ -229,17 +251,14 @@ def consumed_keys(fd):
                     if ast.unparse(t) == v and isinstance(n.value,
                                                           ast.DictComp):
                         g = n.value.generators[0]
-                        if isinstance(g.iter, ast.Name) and g.iter.id in \
-                                literal_loop_names(fd).get(g.target.id, []) \
-                                or True:
-                            vals = au.const_list(g.iter)
-                            if vals is None and isinstance(g.iter, ast.Name):
-                                for m in ast.walk(fd):
-                                    if isinstance(m, ast.Assign) and \
-                                            ast.unparse(m.targets[0]) == \
-                                            g.iter.id:
-                                        vals = au.const_list(m.value)
-                            passed |= set(vals or [])
+                        vals = au.const_list(g.iter)
+                        if vals is None and isinstance(g.iter, ast.Name):
+                            for m in ast.walk(fd):
+                                if isinstance(m, ast.Assign) and \
+                                        ast.unparse(m.targets[0]) == \
+                                        g.iter.id:
+                                    vals = au.const_list(m.value)
+                        passed |= set(vals or [])
     return popped, remainder, kw, passed
 
 
@@ -380,16 +399,22 @@ def rule_K3_K4(ctx):
               f'reader looks for {rtags}; it must strip the array tag first '
               'and then the complex tag, using the literals of the writer '
               f'{wtags}', ctx.where(io, rj), sample={'tags': rtags})
-    rtxt = ast.unparse(rj)
-    ctx.check('C17.K3.tags', 'JSON dtype recovered from the tag',
-              "getattr(np, arraytype[6:])" in rtxt and
-              "key.split('__')[-1]" in rtxt,
-              'array dtype is not read back from the `__array-<dtype>` tag',
+    at = find("_t_ = _k_.split('__')[-1]", rj)
+    ok = len(at) == 1 and has(f'_d_ = getattr(np, {at[0][1]["_t_"]}[6:])',
+                              rj) and has(
+        '_v_ = np.asarray(_v_, dtype=_d_, order=__)', rj)
+    ctx.check('C17.K3.tags', 'JSON dtype recovered from the tag', ok,
+              'array dtype is not read back from the `__array-<dtype>` tag '
+              "(the tag is '__array-' + dtype name: 6 characters + '-')",
               ctx.where(io, rj))
-    wtxt = ast.unparse(wj)
+    ctx.check('C17.K3.tags', 'JSON dtype written into the tag',
+              has("_k_ += '__array-' + _v_.dtype.name", wj),
+              'array tag does not carry the dtype name', ctx.where(io, wj))
     ctx.check('C17.K3.tags', 'JSON complex split real/imag',
-              'np.stack([np.asarray(value).real, np.asarray(value).imag])'
-              in wtxt and '[0, ...] + 1j * np.asarray(value)[1, ...]' in rtxt,
+              has('_v_ = np.stack([np.asarray(_v_).real, '
+                  'np.asarray(_v_).imag])', wj) and
+              has('_v_ = np.asarray(_v_)[0, ...] + 1j * '
+                  'np.asarray(_v_)[1, ...]', rj),
               'complex arrays are not split/joined as (real, imag) pairs '
               'consistently', ctx.where(io, wj))
     # None sentinel
@@ -414,22 +439,23 @@ def rule_K3_K4(ctx):
               'load does not restore None before rebuilding the objects',
               ctx.where(io, load))
     ctx.check('C17.K4.recursion', 'save: serialise first',
-              'data = _dict_serialize(kwargs)' in ast.unparse(save),
+              has('_d_ = _dict_serialize(kwargs)', save),
               'save does not serialise its input through _dict_serialize',
               ctx.where(io, save))
-    stxt = ast.unparse(ser)
     ctx.check('C17.K4.recursion', '_dict_serialize',
-              'value = value.to_dict()' in stxt and
-              'value = _dict_serialize(value)' in stxt and
-              'tuple(utils._KNOWN_CLASSES.values())' in stxt,
+              has('_v_ = _v_.to_dict()', ser) and
+              has('_v_ = _dict_serialize(_v_)', ser) and
+              has('isinstance(_v_, tuple(utils._KNOWN_CLASSES.values()))',
+                  ser) and has('_o_[str(_k_)] = _v_', ser),
               'serialisation does not call to_dict of registered classes and '
               'recurse into dictionaries', ctx.where(io, ser))
     des = io.func('_dict_deserialize')
-    dtxt = ast.unparse(des)
-    ctx.check('C17.K4.recursion', '_dict_deserialize',
-              "utils._KNOWN_CLASSES[value['__class__']]" in dtxt and
-              'inst.from_dict(value)' in dtxt and
-              '_dict_deserialize(value)' in dtxt,
+    dp = au.params(des)
+    cl = find("_c_ = utils._KNOWN_CLASSES[_v_['__class__']]", des)
+    ok = len(cl) == 1 and has(
+        f'{dp[0]}[_k_] = {cl[0][1]["_c_"]}.from_dict({cl[0][1]["_v_"]})',
+        des) and has(f'_dict_deserialize({cl[0][1]["_v_"]})', des)
+    ctx.check('C17.K4.recursion', '_dict_deserialize', ok,
               'de-serialisation does not dispatch on __class__ through the '
               'registry and recurse', ctx.where(io, des))
     # HDF5 groups keep insertion order only with track_order=True
@@ -449,12 +475,13 @@ def rule_K3_K4(ctx):
                   'order (survey dictionaries no longer match the data axes)',
                   ctx.where(io, c))
     cv = io.func('convert')
-    body = [ast.unparse(s).replace(' ', '') for s in au.body_nodoc(cv)]
     ps = au.params(cv)
+    ld = find(f'_d_ = load({ps[0]}, **kwargs)', cv)
     ctx.check('C17.K4.convert', 'convert = save(**load())',
-              body == [f'data=load({ps[0]},**kwargs)',
-                       f'save({ps[1]},**data)'],
-              f'convert is {body}', ctx.where(io, cv))
+              len(ld) == 1 and has(f'save({ps[1]}, **{ld[0][1]["_d_"]})', cv)
+              and len(au.body_nodoc(cv)) == 2,
+              'convert is not save(ofname, **load(ifname))',
+              ctx.where(io, cv))
     ctx.floor('C17.K3.formats', 4)
     ctx.floor('C17.K3.tags', 4)
     ctx.floor('C17.K3.sentinel', 2)
